@@ -66,6 +66,12 @@ class TruncAnalysis:
                     return True
         if u(k) == u(extent):
             return True
+        # extent - k is a non-negative constant (e.g. arange(V + 1)[:V])
+        from sa.norm import Normalizer, padd, const_of
+        nz = Normalizer()
+        c = const_of(padd(nz.poly(extent), nz.poly(k), -1))
+        if c is not None and c >= 0:
+            return True
         # k literally one of the max() arguments via derivation: k = int(X.max().item()), extent = max(T, k)
         return False
 
@@ -109,7 +115,7 @@ class TruncAnalysis:
             if any(not (isinstance(i, ast.Slice) and i.lower is None and i.upper is None) for i in items[:-1]):
                 continue
             k = last.upper
-            if isinstance(k, ast.Constant):
+            if isinstance(k, ast.Constant) or (isinstance(k, ast.UnaryOp) and isinstance(k.operand, ast.Constant)):
                 continue
             exts = self._extent_of(n.value)
             if not exts:
